@@ -168,6 +168,8 @@ class Builder:
             pr2 = self.promise_of_action(other_action)
             cands = []
             for (p2, ty2, _) in self.paths_from(pr2["type"][1]) + [([], "OBJECT", None)]:
+                if other_action == dep_action and list(p2) == list(path):
+                    continue        # two different attributes of ONE action may be compared; the same attribute twice may not
                 for o in OPS:
                     if py_cmp(ty, o, ty2):
                         cands.append((p2, o))
@@ -261,8 +263,10 @@ class Builder:
                     other = None
                     if pending and rng.random() < 0.3:
                         other = pending.pop()
+                    elif rng.random() < 0.12:
+                        other = d           # both operands on the same action (different attributes)
                     cmp_, two = self.make_cmp(d, other)
-                    if other is not None and not two:
+                    if other is not None and other != d and not two:
                         pending.append(other)
                     items.append(cmp_)
                     mentioned |= {d} | ({other} if (other is not None and two) else set())
@@ -616,6 +620,11 @@ class Renderer:
             numeric_names = False
             self.attr_name = lambda n: ["attr%d", "unit-price %d", "attr(%d)", "at tr%d ", "\u00e5ttr %d", "a/%d+b"][n % 6] % n
             self.entity_name = lambda kind, n: ["%s %d", "%s %d ", " %s %d", "%s-%d (x)", "%s  %d", "\u00e9%s %d"][n % 6] % (kind, n)
+        if numeric_names == "case":
+            # names that differ only in letter case are different names: pairs of entities are called "Kind k" / "kind k"
+            numeric_names = False
+            self.entity_name = lambda kind, n: ("%s %d" % (kind.capitalize(), n // 2)) if n % 2 else ("%s %d" % (kind, n // 2))
+            self.attr_name = lambda n: ("Attr%d" % (n // 2)) if n % 2 else ("attr%d" % (n // 2))
         for coll, kind, nk in (("parties", "party", "name"), ("otypes", "type", "name"), ("promises", "promise", "name"),
                                ("actions", "action", "name"), ("checkpoints", "checkpoint", "alias"), ("groups", "group", "name")):
             ids = [e["id"] for e in s[coll]]
